@@ -34,8 +34,63 @@ def lit(v):
     return "(-2147483647-1)" if v == -2147483648 else "(%d)" % v
 
 
+def replay_typecast(ctx):
+    """(T)a as an enumerator: the value the interrogate built from the working tree records against the C++ value."""
+    import shutil
+    vin = ctx["vin"]
+    def iv(name, d=0):
+        try:
+            return int(str(vin.get(name, d)).rstrip("ul"))
+        except Exception:
+            return d
+    a, to, flags = cint(iv("vin_a", 65537)), iv("vin_to", 7), iv("vin_flags", 4)
+    cases = []
+    if to == 1:
+        cases.append(("bool", int(a != 0)))
+    elif to == 7:
+        names = []
+        if flags & 0x8: names.append("unsigned")
+        if flags & 0x10 and not flags & 0x8: names.append("signed")
+        if flags & 0x4: names.append("short")
+        elif flags & 0x2: names.append("long long")
+        elif flags & 0x1: names.append("long")
+        else: names.append("int")
+        if flags & 0x4:
+            v = a & 0xffff
+            want = v if flags & 0x8 else (v - 0x10000 if v & 0x8000 else v)
+            cases.append((" ".join(names), want))
+        elif not flags & 0x8 or a >= 0:
+            cases.append((" ".join(names), a))
+    cases += [("short", None), ("unsigned short", None)]        # canonical witnesses with the operands below
+    lines, wants = [], []
+    for i, (t, want) in enumerate(cases):
+        val = a if want is not None else (65537 if t == "short" else 70000)
+        w = want if want is not None else (1 if t == "short" else 4464)
+        lines.append("  V%d = (%s)%s," % (i, t, lit(val))); wants.append(w)
+    text = "enum E {\n" + "\n".join(lines) + "\n};\n"
+    nb = native.NativeBuild(targets=("interrogate",))
+    try:
+        if not nb.build():
+            return {"reproduced": False, "error": "native build failed", "log": nb.log[-1500:]}
+        d = tempfile.mkdtemp(prefix="verif-replay-", dir="/var/tmp")
+        open(os.path.join(d, "r.h"), "w").write(text)
+        rc, out = native.sh(["timeout", "60", nb.bin("interrogate"), "-promiscuous", "-oc", "o.cxx", "-od", "o.in", "-module", "m", "-library", "l", "-python-native", "r.h"], stdin=b"", cwd=d)
+        db = open(os.path.join(d, "o.in"), errors="replace").read() if os.path.exists(os.path.join(d, "o.in")) else ""
+        shutil.rmtree(d, ignore_errors=True)
+        bad = []
+        for i, w in enumerate(wants):
+            m = re.search(r"\b\d+ V%d \d+ V%d 0\s+(-?\d+)" % (i, i), db)
+            if m and int(m.group(1)) != w:
+                bad.append("V%d = (%s)...: recorded %s, C++ value %d" % (i, cases[i][0], m.group(1), w))
+        return {"reproduced": bool(bad), "input": text, "cmd": "interrogate -promiscuous -od o.in r.h", "observed": "; ".join(bad) or "recorded values equal the C++ values"}
+    finally:
+        nb.close()
+
+
 def replay(ctx):
     vin = ctx["vin"]
+    if ctx["entry"] == "h_eval_typecast_int":
+        return replay_typecast(ctx)
     m = re.match(r"h_eval_(binary_int|unary_int|trinary_int|total_binary|total_unary|total_trinary)_(\w+)$", ctx["entry"])
     if ctx["entry"] == "h_eval_short_circuit":
         is_or = str(vin.get("vin_is_or", "TRUE")).upper().startswith("T")
